@@ -17,6 +17,8 @@ TRUSTED = [
     "9ba6d0e removed the safepoint it guarded; still read so that a reintroduced safepoint is reported with its cause)",
     "hook VM::verif_frames (/repo 817b675): function and owning closure object of every active frame (the closure is found by "
     "comparing the frame's raw upvalue pointer with the upvalue vectors of the live closure objects)",
+    "CLI scenario (plain aelys-cli build, natural 1 MB threshold): 3 generated (script module, main program) pairs run from "
+    "source, .avbc and .aasm; covers the hand-over of the deserialized program heap to the VM around module loading",
     "root-set COMPLETENESS (interpreter locals, native argument vectors, raw-pointer caches) is not proved: it is explored "
     "by the schedule differential only (generated programs x 6 forced schedules vs. never collecting)",
     "edges_spec = every GcRef/pointer Value stored in an object as found by the audit traversal (Function: constants of the "
@@ -28,6 +30,92 @@ IMPORTS = "From Aelys Require Import Model.Gc Model.GcRoots.\nLocal Open Scope N
 # signatures of the two repaired defects (KF-C03-1 fixed by ad6fcd1, KF-C03-2 fixed by 9ba6d0e): plain violations now
 KF1 = "reachable-freed:only-via-nested-function-constant"
 KF2 = "unrooted-local-freed:makeclosure-function"
+
+
+# ---------------------------------------------------------------------------------------------------
+# CLI-level scenario: a precompiled (.avbc) / assembled (.aasm) program that imports a SCRIPT module whose
+# top-level code allocates enough to make the collector run (1.6 MB > the 1 MB threshold; the CLI is the
+# plain build, no schedule hook) before the main program starts: the main program's constants must survive.
+# Reference = running the source through the driver.  (Covers the heap hand-over in cli run_avbc_file /
+# run_aasm_file: merge_heap + remap_constants relative to load_required_modules; seeded C03_r3_1.)
+def cli_build(ctx):
+    tag = vlib.repo_tag()
+    target = os.path.join(vlib.CACHE, "target", tag + "-cli")          # shared with C08/C11
+    with vlib.Lock("cargo-" + tag + "-cli"):
+        rc, out = vlib.sh(["cargo", "build", "--offline", "-q", "-j", "6", "-p", "aelys-cli"], cwd=vlib.REPO,
+                          env={"CARGO_TARGET_DIR": target, "CARGO_NET_OFFLINE": "true", "RUSTFLAGS": "-Awarnings"}, timeout=2400)
+    p = os.path.join(target, "debug", "aelys-cli")
+    if rc != 0 or not os.path.exists(p):
+        ctx.log("cli build failed:\n" + out[-2000:])
+        return None
+    return p
+
+
+def cli_programs(seed):
+    """(module source, main source) pairs; the module's top level forces a collection and keeps allocating"""
+    import random
+    rnd = random.Random(1000 + seed)
+    out = []
+    for k in range(3):
+        n = rnd.randint(4, 10)
+        fill = rnd.choice(["==", "-+", "#", "ab"])
+        mod = (f"pub let table = Array<Int>(200000)\n\nlet mut banner = \"\"\nlet mut i = 0\nwhile i < {n} {{\n"
+               f"    banner = banner + \"{fill}\"\n    i++\n}}\n"
+               + ("let keep = Vec[]\nlet mut j = 0\nwhile j < 5 {\n    keep.push(banner + \"!\")\n    j++\n}\n" if k != 0 else "")
+               + "\npub fn frame(text) {\n    return banner + \" \" + text + \" \" + banner\n}\n")
+        lines = [f"line {i} of main program {k} seed {seed}" for i in range(rnd.randint(2, 5))]
+        main = "needs std.io\nneeds labels\n\n"
+        if k == 2:
+            main += "fn outer(x) {\n    fn inner(y) { return \"inner-constant:\" + y }\n    return inner(x) + \"|outer-constant\"\n}\n"
+        main += "".join(f"io.println(\"{l}\")\n" for l in lines[:-1])
+        main += "io.println(labels.frame(\"framed by the labels module\"))\n"
+        if k == 2:
+            main += "io.println(outer(\"arg\"))\n"
+        main += f"io.println(\"{lines[-1]}\")\n"
+        out.append((mod, main))
+    return out
+
+
+def cli_scenario(ctx):
+    cli = cli_build(ctx)
+    if cli is None:
+        ctx.broken.append("cli: aelys-cli does not build from the current tree")
+        return
+    import shutil
+    st = {"programs": 0, "runs": 0, "differences": 0}
+    for k, (mod, main) in enumerate(cli_programs(ctx.seed)):
+        d = os.path.join(vlib.CACHE, "c03", f"cli_{vlib.repo_tag()}_{os.getpid()}_{k}")
+        shutil.rmtree(d, ignore_errors=True)
+        os.makedirs(d)
+        open(os.path.join(d, "labels.aelys"), "w").write(mod)
+        open(os.path.join(d, "main.aelys"), "w").write(main)
+        rc1, o1 = vlib.sh([cli, "compile", "main.aelys", "-o", "main.avbc"], cwd=d, timeout=120)
+        rc2, o2 = vlib.sh([cli, "asm", "main.aelys", "-o", "main.aasm"], cwd=d, timeout=120)
+        if rc1 or rc2:
+            ctx.broken.append("cli scenario: compile/asm of the generated main program failed: " + (o1 + o2)[-300:])
+            shutil.rmtree(d, ignore_errors=True)
+            return
+        res = {}
+        for f in ("main.aelys", "main.avbc", "main.aasm"):
+            rc, o = vlib.sh([cli, "run", f], cwd=d, timeout=120)
+            res[f] = (rc, o)
+            st["runs"] += 1
+        st["programs"] += 1
+        ref = res["main.aelys"]
+        if ref[0] != 0:
+            ctx.broken.append("cli scenario: the source run of the generated program fails: " + ref[1][-300:])
+        for f in ("main.avbc", "main.aasm"):
+            if res[f] != ref:
+                st["differences"] += 1
+                ctx.violation("gc-cli:precompiled-run-differs-from-source-run:" + f.split(".")[1],
+                              f"`aelys-cli run {f}` of a program importing a script module whose initialisation collects prints "
+                              f"{res[f][1][:200]!r} (exit {res[f][0]}); running the source prints {ref[1][:200]!r}",
+                              {"cli": True, "module labels.aelys": mod, "main.aelys": main, "route": f,
+                               "output": res[f][1][:1000], "reference (source run)": ref[1][:1000]})
+        if k == 0:
+            ctx.add_samples([{"cli scenario": main[:300], "outputs identical (source, avbc, aasm)": res["main.avbc"] == ref and res["main.aasm"] == ref}], limit=8)
+        shutil.rmtree(d, ignore_errors=True)
+    ctx.cov["cli_scenario"] = st
 
 
 def corpus_file(ctx):
@@ -274,6 +362,8 @@ def run(ctx):
         os.remove(cfile)
     except OSError:
         pass
+    if not replay:
+        cli_scenario(ctx)
     ctx.cov["feature_counts"] = dict(sorted(FEATURES.items()))
     starved = [f for f in REQUIRED_FEATURES if FEATURES.get(f, 0) < (3 if ctx.tier == "quick" else 30)]
     ctx.cov["starved_features"] = starved
